@@ -46,7 +46,9 @@ ATOMS = {
     "anchored": ("^" + E("/a") + "$", True),
     "opt": ("/a/?([a-z]+)?", False),             # optional group -> None argument
     "regexdot": ("/a.b", False),                 # unescaped metacharacter
-    "digits": (r"/\d/(.*)", False),              # documented as not reversible
+    "digits": (r"/\d/(.*)", "refuse"),           # documented as not reversible: reverse_url must refuse
+    "backref": (r"/m/([a-z]+)/\1", "refuse"),     # an escaped digit is no re.escape() output either
+    "octal": (r"/m/\0/(.*)", "refuse"),
 }
 # composite atoms: (kind, pattern, children)
 NESTED = {
@@ -56,15 +58,31 @@ NESTED = {
     "hostba": ("h", r"b\.a", ["seg"]),
 }
 ATOMS["nestseg"] = ("/a/([^/]+)", True)
+# patterns handed over as compiled objects carrying flags (str | Pattern is the documented argument type)
+ATOMS["flag-i"] = ("<re.I>/a$", False)
+ATOMS["flag-x"] = ("<re.X>/a \\. (b) $", False)
 TOP_ATOMS = ["lit", "lit2", "litdot", "litpct", "litdollar", "any", "seg", "named", "seg2",
              "namedsuffix", "pctgroup", "grouppct", "pctgrouppct", "anchored", "opt", "regexdot",
-             "nest", "nestfall", "hosta", "hostba"]
+             "flag-i", "flag-x", "nest", "nestfall", "hosta", "hostba"]
 
 SEGS = ["a", "b", "a.b", "aXb", "%41", "A", "a%2Fb", "%", "a$", "a$b", "a+b", "c%C3%A9", "", "ab"]
 HOSTS = ["a", "b.a", "A", "a:8080"]
 HOSTPATS = ["a", r"b\.a", ".*", r".*\.a"]
 
 REV_ARGS = ["a", "ab", "a b", "a/b", "%41", "é", "", "a+b", "a?b#c", "100%", 7, 1.5]
+
+
+def cx(p):
+    """A pattern string, or '<re.I>...' / '<re.X>...': a pattern the application compiled itself with flags."""
+    if p.startswith("<re.I>"):
+        return re.compile(p[6:], re.I)
+    if p.startswith("<re.X>"):
+        return re.compile(p[6:], re.X)
+    return re.compile(p)
+
+
+def real_pat(p):
+    return cx(p) if p.startswith("<re.") else p
 
 
 # ----------------------------------------------------------------- rule tree
@@ -111,7 +129,7 @@ def ref_host_name(host):
 
 def cond_holds(kind, p, hn, path, default_host, real_ip):
     if kind == "p":
-        return re.compile(p).fullmatch(path) is not None
+        return cx(p).fullmatch(path) is not None
     if kind == "h":
         return re.compile(p).fullmatch(hn) is not None
     if kind == "dh":     # Application default_host block (DefaultHostMatches doc: never with X-Real-Ip)
@@ -132,7 +150,7 @@ def ref_route(tree, host, path, default_host=None, real_ip=False):
     if not ms:
         return None
     conds, rid, pat = ms[0]
-    rx = re.compile(pat)
+    rx = cx(pat)
     m = rx.fullmatch(path)
 
     def dec(v):
@@ -161,7 +179,7 @@ def build_app(tree, host_blocks=(), default_host=None, names=None, nest_tuple=Fa
         out = []
         for kind, pat, rid, kids in nodes:
             if kids is None:
-                out.append(URLSpec(pat, H, {"rid": rid}, name=names.get(rid)))
+                out.append(URLSpec(real_pat(pat), H, {"rid": rid}, name=names.get(rid)))
             elif kind == "p":
                 out.append((pat, tuple(conv(kids)) if nest_tuple else conv(kids)))
             else:
@@ -196,7 +214,7 @@ def build_router(tree, names=None):
         rules = []
         for kind, pat, rid, kids in nodes:
             if kids is None:
-                rules.append(Rule(PathMatches(pat), target(rid), name=names.get(rid)))
+                rules.append(Rule(PathMatches(real_pat(pat)), target(rid), name=names.get(rid)))
             elif kind == "p":
                 rules.append(Rule(PathMatches(pat), conv(kids)))
             else:
@@ -331,6 +349,16 @@ def reverse_case(st, case):
         except Exception as e:
             url, exc = None, e
         ok_args = representable(pat, args)
+        if reversible == "refuse":
+            # a backslash-escaped letter or digit outside the groups cannot have come from re.escape():
+            # documented to be refused, not "unescaped" into a URL that does not match the rule
+            if exc is None:
+                bad.append(("reverse:unreversible-pattern-not-refused",
+                            "reverse_url('target', *%r) for pattern %r returned %r instead of raising" % (args, pat, url)))
+            elif not isinstance(exc, (ValueError, AssertionError, TypeError)):
+                bad.append(("reverse:unexpected-exception-type:" + type(exc).__name__,
+                            "reverse_url(%r) raised %r" % (args, exc)))
+            return bad, "refuse", url, exc, None
         verdict = reversible and ok_args
         if not verdict:
             cls = "either:reverse-" + ("pattern-outside-documented-class" if not reversible
@@ -351,7 +379,7 @@ def reverse_case(st, case):
             return bad, "verdict", url, exc, None
         cl = Client(w, router)
         got = cl.get("a", url)
-        rx = re.compile(pat)
+        rx = cx(pat)
         sargs = [str(a) for a in args]
         if rx.groupindex:
             order = sorted(rx.groupindex, key=rx.groupindex.get)
@@ -496,7 +524,7 @@ class C31(Check):
                         if ref is not None:
                             ms = matching_leaves(tree, host, path)
                             if len(ms) >= 2 or ms[0][1] != flat[0][1] or \
-                                    any("%" in (v or "") for v in re.compile(ms[0][2]).fullmatch(path).groups()):
+                                    any("%" in (v or "") for v in cx(ms[0][2]).fullmatch(path).groups()):
                                 st.nontriv((names, host, path, variant))
                         if len(st.samples) < 3 and ref is not None and "%" in path and len(names) > 1:
                             st.sample({"rules": [n for n in names], "host": host, "path": path,
@@ -566,7 +594,7 @@ class C31(Check):
     def _reverse_cases(self):
         for name in sorted(ATOMS):
             pat = ATOMS[name][0]
-            ng = re.compile(pat).groups
+            ng = cx(pat).groups
             for args in itertools.product(REV_ARGS, repeat=ng):
                 for embed in ("top", "nested", "nested2", "hostblock", "hostrule", "nested-tuple"):
                     for variant in ("app", "router"):
